@@ -120,7 +120,14 @@ Cong(A, L, nowFull, toDrainExit, rttExpire, rttExit, tw, pr2, fewAcked) ==
          qp2    == IF PruneOn THEN {p \in qp : p >= least} ELSE qp
          e      == [ev |-> "Cong", scn |-> 0, t |-> 0, prior |-> prior, acked |-> SortByPn(A), lost |-> SortByPn(L),
                     cwnd |-> GetCwnd(md3, cw1, rw2, rec1), bw |-> PacerBw(pr2), slots |-> Slots(qp2)]
-     IN /\ out' = (out \ A) \ L
+     IN \* the abstracted guards are only choices where the code would evaluate them
+        /\ nowFull => (rs /\ ~full)
+        /\ toDrainExit => md1 = "DRAIN"
+        /\ rttExpire => md2 # "PROBE_RTT"
+        /\ rttExit => md2 = "PROBE_RTT"
+        /\ fewAcked => (~full2 /\ cwnd >= tw /\ md3 # "PROBE_RTT")
+        /\ (md3 = "PROBE_RTT") => tw = minW
+        /\ out' = (out \ A) \ L
         /\ largest' = IF A = {} THEN largest ELSE Max2(largest, lastA)
         /\ mode' = md3 /\ rec' = rec1 /\ cwnd' = cw1 /\ rwnd' = rw2 /\ full' = full2
         /\ roundEnd' = rEnd2 /\ endRec' = endR2 /\ bif' = bif2 /\ pr' = pr2 /\ qp' = qp2
